@@ -326,6 +326,10 @@ pub fn run_case(lines: &[Vec<String>], o: &mut Out) {
             let n = FILE_CTR.fetch_add(1, std::sync::atomic::Ordering::SeqCst);
             let path = work_dir().join(format!("gvtmp_{}_{}.graphml", std::process::id(), n));
             let ps = path.to_string_lossy().to_string();
+            // the path already holds a LONGER document (a previous save): saving must replace it
+            if n % 2 == 1 {
+                let _ = std::fs::write(&path, format!("{}{}", doc, "<!-- tail of a previous, longer document -->\n".repeat(3)));
+            }
             let wf = guard(|| readwrite::graphml::write_graphml_file(&g, &ps));
             let same_bytes = matches!(wf, Some(Ok(()))) && std::fs::read(&path).map(|b| b == doc.as_bytes()).unwrap_or(false);
             let ps2 = ps.clone();
